@@ -103,16 +103,19 @@ class Sim:
 
     def tick(self):
         r = self.rng.random()
-        if r < self.o['equal_times'] and not self.o['unique_times']:
+        eq = 0.0 if self.o['unique_times'] else self.o['equal_times']
+        th = self.o.get('thresh', 0.06)
+        big = self.o['big_gaps'] * 0.3
+        if r < eq:
             d = 0
-        elif r < 0.6:
+        elif r < eq + th:
+            d = self.rng.choice([999999, 1000000, 1000000, 1000001, 999900, 1000100, 1500000, 2000000])
+        elif r < eq + th + big:
+            d = self.rng.randint(10**6, 4 * 10**9) if self.rng.random() < 0.5 else self.rng.randint(10**6, 3 * 10**6)
+        elif r < eq + th + big + (1 - eq - th - big) * 0.6:
             d = self.rng.randint(1, 90)
-        elif r < 0.9:
-            d = self.rng.randint(100, 20000)
-        elif r < 1 - self.o['big_gaps'] / 2:
-            d = self.rng.choice([999999, 1000000, 1000001, 1500000, 2000000])
         else:
-            d = self.rng.randint(10**6, 4 * 10**9)
+            d = self.rng.randint(100, 20000)
         self.t += d
         return self.t
 
@@ -452,6 +455,26 @@ class Sim:
                 return True
         return False
 
+    def act_titles(self):
+        """messages the tool also uses for the connection's title (set_title / set_app_id / get_layer_surface), with
+        awkward strings"""
+        tops = self.live('xdg_toplevel') + self.live('zxdg_toplevel_v6') + self.live('wl_shell_surface')
+        if not tops:
+            regs = self.live('wl_registry')
+            if not regs:
+                return False
+            name = len(self.globals) + 1
+            self.globals.append((name, 'xdg_toplevel'))
+            self.emit(True, self.rng.choice(regs), 'bind', [{'k': 'u', 'v': name}, {'k': 's', 'v': 'xdg_toplevel'}, {'k': 'u', 'v': 1},
+                                                           {'k': 'n', 'v': self.alloc_client(), 'iface': None, 'new_type': 'xdg_toplevel'}])
+            return True
+        ob = self.rng.choice(tops)
+        name = self.rng.choice(['set_title', 'set_app_id']) if ob.type != 'wl_shell_surface' else 'set_title'
+        if self.msg_desc(ob.type, name) is None:
+            return False
+        self.emit(True, ob, name, [{'k': 's', 'v': self.rng.choice(['', 'a.', 'org.gnome.gedit', 'Title, with (stuff)', '.', 'x'])}])
+        return True
+
     def act_client_destroy(self):
         """the client drops a client-range object without a destructor request in the XML (e.g. after an event)"""
         obs = [o for o in self.live() if 1 < o.id < SERVER_ID_START and not o.zombie and o.type != 'wl_registry']
@@ -492,7 +515,9 @@ class Sim:
                 self.act_callback_done()
             elif r < h + 0.36:
                 self.act_display_error()
-            elif r < h + 0.36 + self.o['server_new'] * 0.2:
+            elif r < h + 0.38:
+                self.act_titles()
+            elif r < h + 0.38 + self.o['server_new'] * 0.2:
                 self.act_server_new() or self.act_global()
             else:
                 self.act_generic() or self.act_bind()
